@@ -32,6 +32,15 @@ from .. import corpus, lex
 # Generated programs: every statement and operand kind (all addressing modes, expressions with all bracket
 # styles and radices, data directives, labels / local labels, .repeat, FP instructions, synonyms ...).
 GEN_PROGRAMS = {
+"escapes": """
+; character literals that consist of escapes only: the escape letter and the hex digits are spelling
+e:      mov #'\\n, r0
+        cmpb (r1)+, #'\\x1b
+        .word '\\t, "\\x0a\\x0d, '\\x6e + 1, "\\r\\x4a
+        bic #"\\x5f\\n, @#e
+        .byte '\\x0a, '\\x0c, 'n, 'X
+        .word 'a, "\\x2bc, "xA
+""",
 "modes": """
 start:  mov r0, r1
         mov (r1), (r2)+
@@ -651,7 +660,7 @@ def render_tok(x):
     if k == "sym":
         return lex.render_case("ab", x["u"])
     if k == "str":
-        return "'/"
+        return lex.render_case("'\\x1b", x["u"]) if x["s"] == 1 else "'/"
     if k == "loc":
         return "1$"
     if k == "op":
